@@ -680,12 +680,14 @@ func (e *Exec) frameCheckTarget(f *frame, st *State, t modTarget, ins ssa.Instru
 	if strings.HasPrefix(t.heap, "IT.") {
 		return
 	}
-	if t.obj != "" && e.allAllocs[t.obj] {
+	// an embedded struct (sub-object) belongs to the object it is part of
+	root := subRoot(t.obj)
+	if root != "" && e.allAllocs[root] {
 		return
 	}
 	var alts []string
-	if t.obj != "" {
-		alts = append(alts, app(">", t.obj, e.top.entryTop))
+	if root != "" {
+		alts = append(alts, app(">", root, e.top.entryTop))
 	}
 	for _, tt := range e.top.targets {
 		same := tt.heap == t.heap || (t.heap == "map" && strings.HasPrefix(tt.heap, "M")) // map contents: any of MP/MV/ML target for that map
@@ -1184,4 +1186,36 @@ func (e *Exec) callEverything(f *frame, c *ssa.CallCommon, depth int) bool {
 		}
 	}
 	return false
+}
+
+// subRoot strips the sub-object address functions off a reference term: (sub.F (sub.G r)) -> r.
+func subRoot(t string) string {
+	for {
+		if !(strings.HasPrefix(t, "(sub.") || strings.HasPrefix(t, "(|sub.") || strings.HasPrefix(t, "(esub.") || strings.HasPrefix(t, "(|esub.")) {
+			return t
+		}
+		// (fn arg [idx]) : take the first argument
+		i := strings.IndexByte(t, ' ')
+		if i < 0 {
+			return t
+		}
+		rest := t[i+1 : len(t)-1]
+		if strings.HasPrefix(rest, "(") {
+			d := 0
+			for j := 0; j < len(rest); j++ {
+				if rest[j] == '(' {
+					d++
+				} else if rest[j] == ')' {
+					d--
+					if d == 0 {
+						rest = rest[:j+1]
+						break
+					}
+				}
+			}
+		} else if k := strings.IndexByte(rest, ' '); k >= 0 {
+			rest = rest[:k]
+		}
+		t = rest
+	}
 }
